@@ -334,6 +334,9 @@ pub fn execute(case: &Case) -> Verdict {
             }
         }
     }
+    if v.violation.is_none() {
+        v.extra_out = json!({"growth": growth, "configurations": configs.iter().map(|c| json!({"pagesize": c.0, "num_pages": c.1, "strict": c.2, "populate": c.3})).collect::<Vec<_>>()});
+    }
     v.counters.insert("configs_run".into(), ran);
     if growth {
         *v.counters.entry("growth_histories".into()).or_default() += 1;
